@@ -930,6 +930,10 @@ class Interp(object):
         k = rv["k"]
         if k == "use":
             return self.operand(st, rv["op"])
+        if k == "repeat" and isinstance(rv.get("count"), int) and rv["count"] <= 64:
+            # [x; N] with a small literal N: a local array as a list of N independent copies
+            x = self.operand(st, rv["op"])
+            return [_copy_val(x, {}) if isinstance(x, (list, Adt, Tup)) else x for _ in range(rv["count"])]
         if k == "binop":
             x = self.operand(st, rv["a"])
             y = self.operand(st, rv["b"])
@@ -1010,6 +1014,28 @@ class Interp(object):
         short = c.rsplit("::", 1)[-1]
         if any(is_extra(a) for a in args) and libmodel.is_safe(c) and all(is_extra(a) or isinstance(a, (int, bool)) for a in args):
             return Opaque("extra", ())
+        m_ = re.fullmatch(r"core::num::<impl ([iu])(8|16|32|64|128)>::(to|from)_(be|le)_bytes", c)
+        if m_ and len(args) == 1:
+            # an integer as the array of its bytes and back (bit k of the value = bit k % 8 of byte k / 8, little endian)
+            sg, w, dr, en = m_.group(1) == "i", int(m_.group(2)), m_.group(3), m_.group(4)
+            if dr == "to":
+                bv = self.as_bv(args[0], w, sg) if not isinstance(args[0], BV) else args[0]
+                if len(bv.bits) != w:
+                    raise Undecided("to_%s_bytes of a value of another width" % en)
+                bs = [BV(list(bv.bits[8 * k:8 * k + 8]), False) for k in range(w // 8)]
+                return list(reversed(bs)) if en == "be" else bs
+            arr = args[0]
+            if isinstance(arr, list) and len(arr) == w // 8 and all(isinstance(b, (BV, int)) and not isinstance(b, bool) for b in arr):
+                bs = [b if isinstance(b, BV) else bv_const(b & 255, 8, False) for b in arr]
+                if any(len(b.bits) != 8 for b in bs):
+                    raise Undecided("from_%s_bytes of non-byte elements" % en)
+                if en == "be":
+                    bs = list(reversed(bs))
+                bits = []
+                for b in bs:
+                    bits.extend(b.bits)
+                return BV(bits, sg)
+            raise Undecided("from_%s_bytes of an unmodelled array" % en)
         if c == "<core::result::Result<T, E> as core::ops::Try>::branch":
             r = args[0]
             if isinstance(r, Adt) and r.vname == "Ok":
